@@ -1031,6 +1031,13 @@ func (n *NEO) voteDeferrable(ic *interop.Context, args []stackitem.Item, popArgs
 	}
 }
 
+// InvalidateCandidatesCache makes the committee and validators of the next epoch
+// be recomputed from storage: the set of eligible candidates has changed for a
+// reason NEO itself doesn't see (Policy's blocked accounts list).
+func (n *NEO) InvalidateCandidatesCache(d *dao.Simple) {
+	d.GetRWCache(n.ID).(*NeoCache).votesChanged = true
+}
+
 // RevokeVotesDeferrable implements INEO interface. It revokes votes of account h and
 // doesn't check the h's witness.
 func (n *NEO) RevokeVotesDeferrable(ic *interop.Context, h util.Uint160, continuation func()) (bool, error) {
